@@ -247,6 +247,17 @@ def oracle_case(lines, outs, seed=0):
                     if t[0] in ("amo", "exo") and F(asg) and l[0] >= n_old:
                         # completeness is claimed for a literal that was BUILT by this request (a fetched one is an old
                         # variable, already constrained by what was said about it since: C13_amo_complete / C13_exo_complete)
+                        # A fresh exactly-one over a FETCHED at-most-one (exoFresh = false in C13_exo_complete) refers to
+                        # that old literal in its new clauses; an old model in which it is false (it is only implied one
+                        # way) is then legitimately not extendable: such a model says nothing about the new literal.
+                        oldset = {frozenset(c) for c in old_cnf}
+                        aux = {x for c in cnf if frozenset(c) not in oldset for x in c
+                               if x[0] < n_old and x[0] not in avars and x[0] != 0}
+                        if any(asg.get(x[0]) != x[1] for x in aux):
+                            if S.solve(cnf, assum) is None:
+                                bad.append((i, f"{ln}: model {asg} of the old clauses is excluded after the request"))
+                                break
+                            continue
                         assum2 = assum + ([l] if l[0] not in asg else [])
                         if (l[0] in asg and asg[l[0]] != l[1]) or S.solve(cnf, assum2) is None:
                             bad.append((i, f"{ln}: assignment {asg} satisfies the old clauses and the cardinality constraint but cannot make {res} true"))
